@@ -306,3 +306,10 @@ func (o *axOnce) counts() map[string]int {
 	}
 	return m
 }
+
+// axFreshIndex returns a pool index no worker uses: pool.get(axFreshIndex()) builds a NEW server (with the
+// pool's init). Candidates are confirmed there, so that what a long-lived server process remembers (caches,
+// once-only provisioning, pooled objects) cannot make a real finding fail to reproduce.
+var axFreshCounter atomic.Int64
+
+func axFreshIndex() int { return 1000 + int(axFreshCounter.Add(1)) }
